@@ -234,7 +234,7 @@ def spec_histories(ctx):
     calls = 2 if ctx.quick else 3
     r1 = core.tlc("MC_Redecl", cfg_text=cfg(calls=calls, emit=True, invs=[]), workers=1, env=light(), timeout=1800)
     ctx.add_tlc("emit", r1, count_states=False)
-    r2 = core.tlc("MC_RedeclInc", cfg_text=cfg_inc(steps=3 if ctx.quick else 4, emit=True, invs=[]), workers=1,
+    r2 = core.tlc("MC_RedeclInc", cfg_text=cfg_inc(steps=3, emit=True, invs=[]), workers=1,
                   env=light(), timeout=1800)
     ctx.add_tlc("emit_include", r2, count_states=False)
     hs = []
